@@ -249,7 +249,7 @@ def r4(tree, rep):
               key="C01.R4:util.HKDF", what="util.HKDF no longer puts CTXinfo into the info slot / derives from skm")
     for cls in ("_DelegatedWormhole", "_DeferredWormhole"):
         fn = tree.func(WH, cls, "derive_key")
-        g = build(fn)
+        g = build(fn, split=True)
         rets = g.nodes(lambda s: isinstance(s, ast.Return))
         ok = bool(rets)
         for rn in rets:
